@@ -13,7 +13,7 @@ RULE = ("same configuration space as C01; each configuration is differentiated o
         "gradient) draw pairs plus a third run with draw A's data and draw B's upstream gradient; per differentiable "
         "input the gradient is fitted against the reference autograd gradient (sum-reduced loss for mean-reduced "
         "losses). Argument forms: non-contiguous inputs, upstream gradients that are expanded (stride 0, as from y.sum(-1)) or strided, one differentiable input without requires_grad; the upstream gradient tensor is compared bit for bit before/after backward. Non-trivial = at least one input has a non-zero reference gradient; distinct = (function, constraint, "
-        "dtype, shapes) signature. 'prim' cases drive scale_fwd / scale_bwd directly with factors in [-1e3,1e3].")
+        "dtype, shapes) signature. 'prim' cases drive scale_fwd / scale_bwd directly with factors in [-1e3,1e3]. Same positional / magnitude / soft-label forms as C01; a quarter of the cases make the very same call under torch.no_grad() first (a validation pass before any gradient is taken).")
 ASSUMPTIONS = ["PyTorch autograd of the reference op is correct", "float64 noise < 1e-10 relative"]
 IMPORTS = ["unit_scaling.functional", "unit_scaling.scale", "unit_scaling.core.functional"]
 REQUIRED_MONITORS = ["fit:gradients", "prim:value-checks", "prim:grad-checks", "spy:scale-calls"]
